@@ -626,3 +626,11 @@ func TestSchemaEnum(t *testing.T) {
 		return f
 	})
 }
+
+// ---- native fuzz targets: the generators and oracles of the units above, driven by coverage ----
+
+func FuzzPairs(f *testing.F)      { vk.FuzzUnit(f, TestPairs, 0) }
+func FuzzTriples(f *testing.F)    { vk.FuzzUnit(f, TestTriples, 0) }
+func FuzzMalformed(f *testing.F)  { vk.FuzzUnit(f, TestMalformed, 0) }
+func FuzzSchemaEnum(f *testing.F) { vk.FuzzUnit(f, TestSchemaEnum, 0) }
+func FuzzReduceBounds(f *testing.F) { vk.FuzzUnit(f, TestReduceBounds, 0) }
